@@ -2,7 +2,7 @@
 """Collects MATRIX lines from /tmp/matrix_*.log (+ manual notes) into seeded/*/meta.json and the table in DESIGN.md §11."""
 import glob, json, os, re
 rows = {}
-for f in sorted(glob.glob('/tmp/matrix_*.log')):
+for f in sorted(glob.glob('/tmp/matrix_*.log') + glob.glob('/verif/out/matrix/*.log')):
     for l in open(f):
         m = re.match(r"MATRIX (\S+) (\S+) rc=(\d+)\s*(.*)", l)
         if m:
@@ -15,7 +15,8 @@ for sid in sorted(glob.glob('/verif/seeded/c*_*')):
     m = json.load(open(mp))
     prop = 'C' + sid[1:3]
     m['property'] = prop
-    res = dict(rows.get(sid, {}))
+    res = {c: (v['exit'], v['key']) for c, v in (m.get('checks_run_by_main') or {}).items()}
+    res.update(rows.get(sid, {}))   # keep what earlier sessions recorded; new log lines win
     m['checks_run_by_main'] = {c: {'exit': rc, 'key': k} for c, (rc, k) in res.items()}
     if sid in notes:
         m['followup'] = notes[sid]
